@@ -143,7 +143,7 @@ func convertInterface(v reflect.Value, t reflect.Type) (reflect.Value, bool) {
 	}
 	if v.CanInterface() {
 		i := v.Interface()
-		if tt := reflect.TypeOf(i); tt.Implements(t) {
+		if tt := reflect.TypeOf(i); tt != nil && tt.Implements(t) {
 			return reflect.ValueOf(i).Convert(t), true
 		}
 	}
